@@ -38,6 +38,9 @@ type phaseInfo struct {
 	Name  string
 	Class string
 	Objs  []SpecObject
+	// MissingSlice names a referenced ObjectSlice the pass did not get to see (not read, or NotFound):
+	// the phase's objects are then not known and the phase cannot be judged as passed.
+	MissingSlice string
 }
 
 func phasesInfo(owner store.Obj, lookup func(string) store.Obj) []phaseInfo {
@@ -46,7 +49,15 @@ func phasesInfo(owner store.Obj, lookup func(string) store.Obj) []phaseInfo {
 		p, _ := px.(map[string]any)
 		n, _ := p["name"].(string)
 		c, _ := p["class"].(string)
-		out = append(out, phaseInfo{Name: n, Class: c})
+		pi := phaseInfo{Name: n, Class: c}
+		if sl, _ := p["slices"].([]any); lookup != nil {
+			for _, sx := range sl {
+				if name, _ := sx.(string); name != "" && lookup(name) == nil {
+					pi.MissingSlice = name
+				}
+			}
+		}
+		out = append(out, pi)
 	}
 	for _, so := range SpecObjects(owner, lookup) {
 		out[so.Phase].Objs = append(out[so.Phase].Objs, so)
@@ -62,6 +73,9 @@ func phasesInfo(owner store.Obj, lookup func(string) store.Obj) []phaseInfo {
 // everFailed: some object has an observation that is absent or failing, or was
 // never observed.
 func phaseObserved(w *World, p *Pass, owner store.Obj, ph phaseInfo, probes []any, before uint64) (everPassed, everFailed bool, why string) {
+	if ph.MissingSlice != "" && ph.Class == "" {
+		return false, true, "referenced ObjectSlice " + ph.MissingSlice + " was not loaded"
+	}
 	if ph.Class != "" {
 		obs := p.Observations("mgmt", phaseObjectKey(owner, ph.Name), before)
 		if len(obs) == 0 {
